@@ -174,3 +174,20 @@ Definition lookup_spec (s : schema) (e real : nat) : found := if issub s real e 
 
 Definition found_eqb (a b : found) : bool :=
   match a, b with Found x, Found y => x =? y | NotFound, NotFound => true | ClassChangeError, ClassChangeError => true | _, _ => false end.
+
+(* ------------------------------------------------------------------ Attribute.get : reading a reference attribute.  The value is either already in
+   obj._vals_ or fetched by attr.load(obj) (the owner itself was an unloaded placeholder); a value whose class has subclasses and which is
+   still an unloaded seed is loaded -- and thereby refined (_get_from_identity_map_) -- before it is handed out.  [guarded] says whether
+   the value takes the path through that guard (read from the source on every run for the attr.load path: Gen/C27AttrGet.v). *)
+Definition attr_get_class (s : schema) (guarded : bool) (cur : nat) (seed : bool) (real : nat) : option nat :=
+  if guarded then
+    match subclasses s cur with
+    | [] => Some cur
+    | _ => if seed then refine s cur real else Some cur
+    end
+  else Some cur.
+
+(* iterating a many-to-many collection hands out the placeholders built from the link table as they are (no guard on that path) *)
+Definition collection_item_class (cur real : nat) : nat := cur.
+(* Entity.__setstate__-side: a reference restored from a pickle is an object of the declared class marked as loaded; nothing refines it *)
+Definition unpickled_ref_class (cur real : nat) : nat := cur.
